@@ -308,6 +308,16 @@ pub(crate) mod verif_probe {
                                     else if u.starts_with("COPY ") && u.contains("TO STDOUT") {
                                         deliver.push(pmsg(b'H', b"\0\0\0")); deliver.push(pmsg(b'd', format!("{}\n", tag).as_bytes()));
                                         deliver.push(pmsg(b'c', b"")); deliver.push(pmsg(b'C', b"COPY 1\0")); }
+                                    else if u.split_whitespace().any(|w| w == "DIE") {
+                                        // the backend breaks while executing: a row description, half a DataRow, then the connection is gone
+                                        let mut rd = vec![0u8, 1, b'c', 0]; rd.extend_from_slice(&0i32.to_be_bytes()); rd.extend_from_slice(&0i16.to_be_bytes());
+                                        rd.extend_from_slice(&25i32.to_be_bytes()); rd.extend_from_slice(&(-1i16).to_be_bytes()); rd.extend_from_slice(&(-1i32).to_be_bytes()); rd.extend_from_slice(&0i16.to_be_bytes());
+                                        let mut o = pmsg(b'T', &rd); o.extend_from_slice(b"D\x00\x00\x00\x12\x00\x01\x00");
+                                        { let mut l = log.lock(); l.clock += 1; let (g, phase) = (l.clock, l.phase);
+                                          l.reqs.push(RefReq { g, conn, phase, bytes: bytes.clone(), delivered: vec![pmsg(b'T', &rd)], status_after: t.status, before: before.clone() }); }
+                                        let _ = sock.write_all(&o).await;
+                                        return;
+                                    }
                                     else if u.starts_with("ERROR") || u.contains("1/0") { if t.status != b'I' { t.status = b'E'; }
                                         deliver.push(pmsg(b'E', b"SERROR\0C22012\0Mdivision by zero\0\0")); break; }
                                     else { select_reply(&s, n, row_tag(s.as_bytes()), &mut deliver); }
